@@ -856,6 +856,22 @@ pub fn compile(
         Some("stub") => {
             let metadata = crate::utils::get_metadata(env, actor);
             if let Some(metadata) = metadata {
+                // A raw byte string cannot hold non-ASCII characters, a bare CR or the sequence `"#`.
+                let raw_ok = !metadata.contains("\"#")
+                    && metadata
+                        .bytes()
+                        .all(|b| b == b'\n' || (0x20..0x7f).contains(&b));
+                let literal = if raw_ok {
+                    format!("br#\"{metadata}\"#")
+                } else {
+                    let escaped: String = metadata
+                        .bytes()
+                        .flat_map(std::ascii::escape_default)
+                        .map(char::from)
+                        .collect();
+                    format!("b\"{escaped}\"")
+                };
+                external.0.insert("metadata_literal".to_string(), literal);
                 external.0.insert("metadata".to_string(), metadata);
             }
             Cow::Borrowed(include_str!("rust_stub.hbs"))
